@@ -104,12 +104,24 @@ class DataReader(object):
             raise ConnectionLost()
 
         self.size += len(piece)
+        self.add_lines(piece)
         if self.max_size and self.size > self.max_size:
-            self.EOD = self.i
             raise MessageTooBig()
 
-        self.add_lines(piece)
         return self.EOD is None
+
+    def _discard_rest(self):
+        # The client is still sending the message: consume it up to the
+        # End-Of-Data marker, keeping only the line under construction, so that
+        # the rest of it is not mistaken for commands.
+        while self.EOD is None:
+            del self.lines[:self.i]
+            self.i = 0
+            piece = self.io.raw_recv()
+            if piece == b'':
+                raise ConnectionLost()
+            self.add_lines(piece)
+        self.return_all()
 
     def return_all(self):
         assert self.EOD is not None
@@ -129,8 +141,12 @@ class DataReader(object):
 
         """
         self.from_recv_buffer()
-        while self.recv_piece():
-            pass
+        try:
+            while self.recv_piece():
+                pass
+        except MessageTooBig:
+            self._discard_rest()
+            raise
         return self.return_all()
 
 
